@@ -274,6 +274,12 @@ KeyStrs(x) == CASE x.k = "map"  -> {e.key.v : e \in {e2 \in x.v : e2.key.k = "st
 
 RetypeAtoms == {Nil, B(TRUE), N(0), N(-1), F(3), S("x"), S(""), M({}), L(<<>>)}
 FreshKeys(sel) == IF sel.k = "num" THEN {S("zz"), N(7), N(-5), N(-1), N(0)} ELSE {S("zz"), N(7)}
+\* keys of a type no description uses, added beside the keys of a mapping: a float that is not a number (a map
+\* never finds such a key again), an infinite float, an integer, a boolean, nil, a byte string.  (A list cannot
+\* be a key of a decoded map.)
+KSpecial(x) == [k |-> "fspecial", v |-> x]
+KBytes(x)   == [k |-> "bytes", v |-> x]
+ExtraKeys   == {KSpecial("nan"), KSpecial("+inf"), N(7), B(TRUE), Nil, KBytes("ab")}
 Mu(op, p, arg) == [op |-> op, path |-> p, arg |-> arg]
 MutsAt(x, p, pool) ==
     LET par == NodeAt(x, Front(p))
@@ -285,9 +291,13 @@ MutsAt(x, p, pool) ==
        \cup (IF par.k = "map" THEN {Mu("rename", p, a) : a \in FreshKeys(sel) \ Sels(par)} ELSE {})
        \cup {Mu("retype", p, a) : a \in RetypeAtoms \ {c}}
        \cup (IF c.k = "str" THEN {Mu("repoint", p, S(s)) : s \in pool \ {c.v}} ELSE {})
+\* at every mapping node (the root included): one more entry under a key of a foreign type
+ExtraAt(x, p) == LET nd == NodeAt(x, p) IN
+                 IF nd.k = "map" THEN {Mu("extrakey", p, a) : a \in ExtraKeys \ Sels(nd)} ELSE {}
 MutsOn(x, p) ==
-    IF p = <<>> THEN {Mu("retype", <<>>, a) : a \in RetypeAtoms \ {x}}
-    ELSE MutsAt(x, p, Strs(x) \cup {"nowhere"})
+    ExtraAt(x, p) \cup
+    (IF p = <<>> THEN {Mu("retype", <<>>, a) : a \in RetypeAtoms \ {x}}
+     ELSE MutsAt(x, p, Strs(x) \cup {"nowhere"}))
 
 LocalEdit(x, sel, mu) ==
     IF x.k = "map"
@@ -303,7 +313,13 @@ Edit(x, p, mu) ==
     IF Len(p) = 1 THEN LocalEdit(x, p[1], mu)
     ELSE IF x.k = "map" THEN M({IF e.key = p[1] THEN E(e.key, Edit(e.val, Tail(p), mu)) ELSE e : e \in x.v})
     ELSE L([i \in DOMAIN x.v |-> IF i = p[1].v THEN Edit(x.v[i], Tail(p), mu) ELSE x.v[i]])
-Apply(x, mu) == IF mu.path = <<>> THEN mu.arg ELSE Edit(x, mu.path, mu)
+RECURSIVE AddKey(_, _, _)
+AddKey(x, p, key) ==
+    IF p = <<>> THEN M(x.v \cup {E(key, Nil)})
+    ELSE IF x.k = "map" THEN M({IF e.key = p[1] THEN E(e.key, AddKey(e.val, Tail(p), key)) ELSE e : e \in x.v})
+    ELSE L([i \in DOMAIN x.v |-> IF i = p[1].v THEN AddKey(x.v[i], Tail(p), key) ELSE x.v[i]])
+Apply(x, mu) == IF mu.op = "extrakey" THEN AddKey(x, mu.path, mu.arg)
+                ELSE IF mu.path = <<>> THEN mu.arg ELSE Edit(x, mu.path, mu)
 
 (* ------------------------------------------------------------------------ *)
 (* the C10 universe: valid descriptions using every feature, and            *)
@@ -494,7 +510,13 @@ BasesValid == (IsCase /\ lab = <<>> /\ src # NoSrc) => Classify(tgt, d).stage = 
 (*   boolean, float {"f":halves}, nil {"z":true}, package units {"pu":name}, *)
 (*   list {"l":[..]}, map {"m":{"sKEY":..,"i5":..}} ({"m":[]} when empty)   *)
 (* ------------------------------------------------------------------------ *)
-JKey(a) == IF a.k = "str" THEN "s" \o a.v ELSE "i" \o ToString(a.v)
+\* keys: "s<string>", "i<integer>", "f<halves>", "n<nan|+inf>", "b<TRUE|FALSE>", "z" (nil), "y<bytes>"
+JKey(a) == CASE a.k = "str"  -> "s" \o a.v
+             [] a.k = "num"  -> (IF a.rep = "f" THEN "f" \o ToString(a.v) ELSE "i" \o ToString(a.v))
+             [] a.k = "fspecial" -> "n" \o a.v
+             [] a.k = "bool" -> "b" \o ToString(a.v)
+             [] a.k = "nil"  -> "z"
+             [] a.k = "bytes" -> "y" \o a.v
 RECURSIVE J(_)
 J(x) == CASE x.k = "str"  -> x.v
           [] x.k = "num"  -> (IF x.rep = "f" THEN [f |-> x.v] ELSE IF x.rep = "u" THEN [u |-> x.v] ELSE x.v)
